@@ -22,6 +22,11 @@ def cases(ctx):
     for cfg in ipgen.configs(rng, ctx.per_shard(ctx.pick(300, 9000)), quick=ctx.quick):
         yield {"kind": "cfg", "cfg": cfg, "n": (ctx.pick(300, 2000) if cfg["fam"] == 4 else ctx.pick(60, 300)),
                "aseed": rng.getrandbits(32)}
+    from ..oracles import ipref
+
+    for fcfg in ipref.file_configs(rng, ctx.per_shard(ctx.pick(60, 3000)), quick=ctx.quick):
+        fcfg["B6"] = rng.choice([1, 8, 8, 16, 64, 127, 128, fcfg["B6"]])
+        yield {"kind": "file", "fcfg": fcfg, "aseed": rng.getrandbits(32)}
     # many salts against the same prefix list: an unpinned last bit is a 1/2 event per salt
     for i in range(ctx.per_shard(ctx.pick(400, 20000))):
         pp = rng.choice([None, ["10.0.0.0/8"], ["1.2.3.4/31"], ["12.0.0.0/6", "200.100.0.0/17"], [ipgen.rand_net4(rng)]])
@@ -30,7 +35,48 @@ def cases(ctx):
         yield {"kind": "cfg", "cfg": cfg, "n": 12, "aseed": rng.getrandbits(32), "boundary_only": True}
 
 
+def _file(ctx, case):
+    """Host bits through the file-level wiring: FileAnonymizer passes one host-bit count per family."""
+    import ipaddress as ipa
+
+    from ..gen import lines as L
+    from ..oracles import ipref
+    from . import c02, c17
+
+    fcfg = case["fcfg"]
+    rng = random.Random(case["aseed"])
+    lns = c02.gen_ip_lines(rng, fcfg, 12, near=False)
+    lns = [[s for s in segs if not (s[1]["t"] == "d" and s[0].startswith(":"))] for segs in lns]
+    fa = ipref.file_anonymizer(fcfg)
+    ref = ipref.Ref(fcfg)
+    B = {"v4": fcfg.get("B4") or 0, "v6": fcfg.get("B6") or 0}
+    for segs in lns:
+        out = ipref.run_io(fa, L.text_of(segs) + "\n")[:-1]
+        pairs = c17.read_pairs(segs, out)
+        ctx.ev()
+        if pairs is None:
+            ctx.count("file_lines_unreadable_by_position")
+            continue
+        for fam, v, tok in pairs:
+            if fam == "v4" and ref.untouched4(v):
+                continue
+            try:
+                got = int(ipa.ip_address(tok))
+            except ValueError:
+                continue
+            b = B[fam]
+            ctx.count("host_bit_checks")
+            ctx.count("file_level_host_bit_checks_" + fam)
+            if b and (got ^ v) & ((1 << b) - 1):
+                ctx.violation(dict(case, lines=[segs]), "host-bits-altered:file-level-" + fam,
+                              "FileAnonymizer(preserve_suffix_%s=%d): %s -> %s changes the trailing bits" % (fam, b, ipa.ip_address(v), tok))
+                return
+            ctx.distinct(("file", fam, b, v & 0xFFFF))
+
+
 def check_case(ctx, case):
+    if case["kind"] == "file":
+        return _file(ctx, case)
     if case["kind"] != "cfg":
         raise HarnessError("unknown kind")
     cfg = case["cfg"]
